@@ -334,6 +334,41 @@ def run (asIs : Bool) (T : Table) (files : List File) (argv : List Occ) : Except
   let st ← read asIs T (init T) files
   updateFromDict T argv st
 
+/-! ## histories: the configuration is a mutable object, read back at any time
+
+Layers may be applied one after the other (`config.read(file)`, `config.updateFromDict(parse_args(argv))`), values may
+be assigned (`config[section][key] = value`), and `config[section][key]` may be read between any two of these.
+Reading back is a function of the *current* values only (there is no cache in `ConfigSection.__getitem__`). -/
+
+inductive Step
+  | read (f : File)            -- `config.read(filename)`
+  | cli (argv : List Occ)      -- `config.updateFromDict(vars(parser.parse_args(argv)))`
+  | assign (sec key : Str) (v : Val)   -- `config[sec][key] = v`  (`ConfigSection.__setitem__`, non-option value)
+  | observe                    -- read every option back
+  deriving DecidableEq, Repr
+
+/-- `self.data[key].value = value` (`KeyError` for an unknown section or key) -/
+def assign (T : Table) (st : St) (sec key : Str) (v : Val) : Except Err St :=
+  match findIdx T sec key with
+  | some i => pure (st.set i v)
+  | none => .error .keyError
+
+def stepHist (asIs : Bool) (T : Table) (st : St) : Step → Except Err St
+  | .read f => readFile asIs T st f
+  | .cli argv => do parseArgs T argv; updateFromDict T argv st
+  | .assign sec key v => assign T st sec key v
+  | .observe => pure st
+
+/-- the states at the observation points of a history; the history stops at the first exception -/
+def hist (asIs : Bool) (T : Table) : List Step → St → List St × Option Err
+  | [], _ => ([], none)
+  | s :: r, st =>
+    match stepHist asIs T st s with
+    | .error e => ([], some e)
+    | .ok st' =>
+      let (obs, e) := hist asIs T r st'
+      (match s with | .observe => st' :: obs | _ => obs, e)
+
 /-! ## reading back: `ConfigSection.__getitem__` with `InterpolationWrapper` -/
 
 def natDigits : Nat → Nat → Str → Str
